@@ -124,6 +124,27 @@ VOP(tp_tz)
 	Out(bad < 0 ? "tp_tz ok" : "tp_tz libc-differs-from-table at=" + std::to_string(bad));
 }
 
+// tp_mk l=<L1,L2,...> : libc's mktime (tm_isdst = -1) for the local times L (seconds since the epoch "as if UTC"), in
+// the zone set by tp_tz.  glibc starts its search from the offset of the previous successful call, which decides
+// which of the two instants of a REPEATED local time it returns; every query is therefore preceded by a query for the
+// local time two days earlier (offset in force before a nearby transition), which makes the answer deterministic.
+VOP(tp_mk)
+{
+	auto mk = [](long L) { time_t l = L; tm g; gmtime_r(&l, &g); g.tm_isdst = -1; return (long)mktime(&g); };
+	std::ostringstream o;
+	o << "tp_mk r=";
+	bool any = false;
+	for (auto& s : SplitC(a.str("l", "-"), ',')) {
+		long L = std::stol(s);
+		mk(L - 2 * 86400);
+		if (any) o << ",";
+		o << mk(L);
+		any = true;
+	}
+	if (!any) o << "-";
+	Out(o.str());
+}
+
 // tp_new name=<n> [prefer=0|1] [inc=a,b] [exc=c]
 VOP(tp_new)
 {
@@ -209,12 +230,13 @@ struct TpNullUtils : public ValidationUtils {
 };
 }
 
-// tp_parse k=<hex day definition> [limit=<s>] [ast=...] : what config validation does with this ranges key
+// tp_parse k=<hex day definition> [v=<hex time ranges>] [limit=<s>] [ast=...] : what config validation does with this ranges entry
 // (TimePeriod::ValidateRanges -> LegacyTimePeriod::ParseTimeRange), in a forked child under a watchdog:
 // res=ok | rejected (ValidationError) | hang (still running after <limit> seconds of real time) | crash
 VOP(tp_parse)
 {
-	std::string def = HexDec(a.str("k"));
+	std::string def = a.str("k", "-") == "-" ? std::string() : HexDec(a.str("k"));
+	std::string trs = a.str("v", "").empty() ? std::string("00:00-24:00") : (a.str("v") == "-" ? std::string() : HexDec(a.str("v")));
 	unsigned limit = (unsigned)a.num("limit", 3);
 	pid_t pid = fork();
 	if (pid < 0) throw std::runtime_error("fork failed");
@@ -224,7 +246,7 @@ VOP(tp_parse)
 		int rc = 0;
 		try {
 			TimePeriod::Ptr tp = new TimePeriod();
-			Dictionary::Ptr r = new Dictionary({ { String(def), String("00:00-24:00") } });
+			Dictionary::Ptr r = new Dictionary({ { String(def), String(trs) } });
 			TpNullUtils utils;
 			tp->ValidateRanges(Lazy<Dictionary::Ptr>(r), utils);
 		} catch (...) {
